@@ -456,6 +456,35 @@ fn gen_cases(tier: &str, rng: &mut Rng, out: &mut dyn FnMut(Case)) {
         }
         out(Case::new(rmbx, op, sc, "segmented"));
     }
+    // ---- 4b. endless 'more follows' segments that carry no data in one of the two encodings (length 3, or the
+    //          minimum-size encoding: length 10 with all 7 bytes marked unused), far more of them than the request may
+    //          ever read: it must end (error at the first such segment), not follow the device for as long as it talks
+    for k in 0..(if thorough { 200 } else { 24 }) {
+        let rmbx = *rng.pick(&[16u16, 20, 32, 64]);
+        let d = match k % 4 {
+            0 => Dest::Vecb(*rng.pick(VEC_SIZES)),
+            1 => Dest::Arr(*rng.pick(ARR_SIZES)),
+            2 => Dest::Str(*rng.pick(STR_SIZES)),
+            _ => Dest::U64,
+        };
+        let op = Op::Read(d.clone(), 0x2000, Access::Index(0));
+        let total = (d.buf_len() as u32).max(5);
+        let mut sc = vec![vec![normal(0x2000, 0, total, &[], None)]];
+        // optionally a few ordinary segments first
+        let mut toggle = false;
+        for _ in 0..rng.below(3) {
+            sc.push(vec![segment(3, toggle, false, 6, 10, &rng.bytes(10))]);
+            toggle = !toggle;
+        }
+        let reps = d.buf_len() + 12 + 10 + 40;
+        let min_size = k % 2 == 0;
+        for _ in 0..reps {
+            let m = if min_size { segment(3, toggle, false, 7, 10, &rng.bytes(10)) } else { segment(3, toggle, false, 0, 3, &rng.bytes(3)) };
+            sc.push(vec![m]);
+            toggle = !toggle;
+        }
+        out(Case::new(rmbx, op, sc, "segmented-endless"));
+    }
 
     // ---- 5. SDO-info fragment sequences
     let n_info = if thorough { 30_000 } else { 4_000 };
